@@ -551,6 +551,7 @@ C13_RULE = ("cases = valid programs (corpus, generator mix, nesting depth 20..30
 import random
 import tempfile
 from concurrent.futures import ThreadPoolExecutor
+import threading
 
 BACKENDS = {"--inplace": "inplace", "--ir-int": "irint", "--bc-int": "bcint", "--base-jit": "basejit"}
 PRINTS = ["--print-ir", "--print-bc", "--print-jit-bc", "--print-jit-mc"]
@@ -621,17 +622,46 @@ def check_c16(tier, seed):
         # own process group: on a timeout the whole group is killed (the binary runs under
         # setarch / strace wrappers; killing only the wrapper would leave hpbf spinning)
         pr = subprocess.Popen(cmd, stdin=fd, stdout=subprocess.PIPE, stderr=subprocess.PIPE, start_new_session=True)
+        # bounded capture: a run that ignores its limit can print without end, and an unbounded
+        # communicate() buffer would exhaust memory long before the timeout
+        CAP = 8 << 20
+        bufs = {"out": bytearray(), "err": bytearray()}
+        flood = threading.Event()
+
+        def pump(stream, key):
+            while True:
+                chunk = stream.read(65536)
+                if not chunk:
+                    break
+                if len(bufs[key]) < CAP:
+                    bufs[key] += chunk
+                else:
+                    flood.set()
+                    try:
+                        os.killpg(pr.pid, 9)
+                    except ProcessLookupError:
+                        pass
+        th = [threading.Thread(target=pump, args=(pr.stdout, "out")), threading.Thread(target=pump, args=(pr.stderr, "err"))]
+        for t_ in th:
+            t_.start()
         try:
-            out, err = pr.communicate(timeout=60)
-            off = os.lseek(fd, 0, os.SEEK_CUR)
-            rc = pr.returncode
+            pr.wait(timeout=60)
+            timed_out = False
         except subprocess.TimeoutExpired:
+            timed_out = True
             try:
                 os.killpg(pr.pid, 9)
             except ProcessLookupError:
                 pass
-            pr.communicate()
+            pr.wait()
+        for t_ in th:
+            t_.join()
+        if timed_out or flood.is_set():
             rc, out, err, off = None, b"", b"", -1
+        else:
+            out, err = bytes(bufs["out"]), bytes(bufs["err"])
+            off = os.lseek(fd, 0, os.SEEK_CUR)
+            rc = pr.returncode
         os.close(fd)
         tr = ""
         if trace and os.path.exists(trace):
@@ -640,7 +670,6 @@ def check_c16(tier, seed):
         os.remove(inp)
         return rc, out, err, off, tr
 
-    import threading
     _tl = threading.local()
 
     def threading_id():
@@ -700,7 +729,10 @@ def check_c16(tier, seed):
         if kind == "limit_divergent":
             # prints, then never ends canonically: only the limit makes it return
             code, stdin = rng.choice([("++++++++[>++++++++<-]>+.[]", b""), ("+[.]", b""), (",[.[-]+]", b"A"), ("+++[>+.<]", b""), ("+[>+.<[-]+]", b"")])
-            flags += ["--limit", str(rng.choice([10, 1000, 100000]))]
+            if rng.random() < 0.25:
+                # an earlier --limit that the last one overrides
+                flags = ["--limit", str(rng.choice([0, 7, 10 ** 9]))] + flags
+            flags += ["--limit", str(rng.choice([0, 0, 1, 10, 1000, 100000]))]
             if rng.random() < 0.4:
                 flags.insert(rng.choice([k for k in range(len(flags) + 1) if k == 0 or flags[k - 1] != "--limit"]), "--static")
         if kind == "static":
@@ -781,8 +813,8 @@ def check_c16(tier, seed):
         info = {"strace": use_strace}
         if rc is None:
             if limit is not None and limit <= 10 ** 6:
-                return (case, argv, "violated", f"--limit {limit} given (flags {flags}) but the process did not return within 60 s", info)
-            return (case, argv, "inconclusive", "timeout (60 s)", info)
+                return (case, argv, "violated", f"--limit {limit} given (flags {flags}) but the process did not return within 60 s (or printed more than 8 MiB)", info)
+            return (case, argv, "inconclusive", "timeout (60 s) or more than 8 MiB of output", info)
         if kind == "missing_file":
             if rc != 1 or not err or out:
                 why = f"unreadable file: exit {rc}, stderr {len(err)} bytes, stdout {out[:20]!r}; expected exit 1, a diagnostic and no output"
@@ -974,6 +1006,7 @@ def replay(path):
         "smallvec_history": lambda: [binary, "c18replay", "--n", str(v["n"]), "--tracked", "true" if v["tracked"] else "false", "--hist-seed", str(v["hist_seed"]), "--index", str(v["index"]), "--ops", str(v["ops"])],
         "bytecode": lambda: [binary, "c11replay", "--code", v["program"], "--bits", str(v["bits"]), "--input-hex", v.get("input_hex", "")],
         "compile": lambda: [binary, "c13replay", "--code", v.get("program", ""), "--bits", str(v.get("bits", 8))],
+        "growth": lambda: [binary, "c13growth", "--family", v.get("family", "all")],
     }
     if kind in simple:
         r = subprocess.run(simple[kind]() + ["--replay-path", path], env=ENV)
